@@ -28,7 +28,6 @@ import vf
 import loopcore_common as lc
 
 ECANCELED = -125
-KF_FSPOLL = "fs_poll_close_cb_withheld_after_restart_with_stat_in_flight"
 
 
 # --------------------------------------------------------------------------
@@ -285,10 +284,10 @@ def u_signal(p):
         p.hooks.append("H%d" % h2)
 
 
-def u_fspoll(p, allow_restart=True):
+def u_fspoll(p):
     rng = p.rng
-    v = rng.choice(["fresh", "started", "started", "in-flight", "in-flight", "stopped", "stopped-in-flight"] +
-                   (["restart-in-flight"] if allow_restart else []))
+    v = rng.choice(["fresh", "started", "started", "in-flight", "in-flight", "stopped", "stopped-in-flight",
+                    "restart-in-flight", "restart"])
     h = p.init("f")
     if v == "fresh":
         return
@@ -299,9 +298,11 @@ def u_fspoll(p, allow_restart=True):
     p.add("s%d,%d" % (h, arg))
     if arg == 0:
         p.hooks.append("H%d" % h)
-    if v in ("stopped", "stopped-in-flight", "restart-in-flight"):
+    if v in ("stopped", "stopped-in-flight", "restart-in-flight", "restart"):
         p.add("t%d" % h)
-    if v == "restart-in-flight":
+    if v in ("restart-in-flight", "restart"):
+        # stop + start while the first stat is in flight: the superseded context must not keep the
+        # handle from closing (was finding fs_poll_close_cb_withheld_..., fixed in /repo 834ed95)
         p.add("s%d,%d" % (h, arg))
     if v == "started":
         p.add("R2", "R2")
@@ -310,15 +311,13 @@ def u_fspoll(p, allow_restart=True):
 UNITS = [(u_simple, 6), (u_proc, 1), (u_tcp, 4), (u_pipe, 3), (u_udp, 3), (u_signal, 2), (u_fspoll, 2)]
 
 
-def gen_case(rng, restart=False):
+def gen_case(rng):
     p = Prog(rng)
     pool = [u for u, w in UNITS for _ in range(w)]
     nunits = rng.choice([1, 1, 2, 2, 3])
     for _ in range(nunits):
         u = rng.choice(pool)
-        if u is u_fspoll:
-            u(p, allow_restart=restart or rng.random() < 0.15)
-        elif u is u_simple and rng.random() < 0.3 and p.n < 30:
+        if u is u_simple and rng.random() < 0.3 and p.n < 30:
             # two of the same kind, both triggered: same phase / batch
             k = rng.choice("tipcaoe")
             u_simple(p, k)
@@ -486,7 +485,7 @@ def monitor(case, line):
     toks = line.split()
     closing, closed, owner, done, delivered = set(), set(), {}, {}, {}
     kinds = []
-    fp_state, fp_restarted = {}, set()     # fs_poll: 0 idle, 1 started, 2 stopped with a context alive
+
     for tok in toks:
         c = tok[0]
         if tok.startswith("ABORT"):
@@ -495,9 +494,6 @@ def monitor(case, line):
             m = re.match(r"!(late|reqlate|twice|closetwice|owed|never-closed|never-called|fdleak|loop_close)(-?\d+)", tok)
             if tok in BANG:
                 return BANG[tok]
-            if m and m.group(1) in ("never-closed", "loop_close") and fp_restarted and \
-                    all(kinds[h] == "f" and h in fp_restarted for h in closing - closed):
-                return "KNOWN:" + KF_FSPOLL
             if m:
                 what = {"late": "callback for handle %s after its close_cb",
                         "reqlate": "callback of request %s after the close_cb of its handle",
@@ -553,22 +549,9 @@ def monitor(case, line):
             name = {"0": "descriptor", "1": "accepted descriptor", "3": "bound socket file", "4": "inotify watch",
                     "5": "epoll registration", "6": "signal disposition"}.get(res, res)
             return "%s of handle %s still present at its close_cb" % (name, h)
-        elif c == "F":
-            h = int(tok[1:])
-            if fp_state.get(h) == 2:
-                fp_restarted.add(h)
-            if fp_state.get(h, 0) != 1:
-                fp_state[h] = 1
-        elif c == "T":
-            if fp_state.get(int(tok[1:])) == 1:
-                fp_state[int(tok[1:])] = 2
-        elif c == "D":
-            pass
         elif tok == ".Y0":
             owed = sorted(closing - closed)
             if owed:
-                if all(kinds[h] == "f" and h in fp_restarted for h in owed):
-                    return "KNOWN:" + KF_FSPOLL
                 return "uv_run() returned 0 but handle %d never got its close_cb" % owed[0]
     return None
 
